@@ -41,7 +41,9 @@ func (ex *Exec) callFunc(st *State, fr *Frame, c ssa.Instruction, fn *ssa.Functi
 		ex.assumed[fn.String()] = true
 		return m(ex, st, fr, c, fn, args)
 	}
-	if fc := ex.L.Contracts.lookup(fn); fc != nil && !fc.InlineOnly {
+	// In recover mode callees are executed, not abstracted: what happens after a violated callee
+	// precondition (panic or garbage) decides the property, and only the body knows.
+	if fc := ex.L.Contracts.lookup(fn); fc != nil && !fc.InlineOnly && !(ex.recoverMode && ex.L.isRepoFunc(fn) && fn.Blocks != nil) {
 		return ex.callContract(st, fr, c, fn, fc, args)
 	}
 	if !ex.L.isRepoFunc(fn) {
